@@ -419,10 +419,9 @@ def ensureSection (cfg : Ini) (server : Str) : Ini :=
   else if server == defaultSect then { cfg with defaults := [] }
   else { cfg with sections := cfg.sections ++ [(server, [])] }
 
-/-- `mk_server_cfg(args)`: `mem` is `USERCFG` as it stands, `lib` is `LIBCFG`, `disk` the user file
-    (`[]` when it does not exist), `uuid` what `OFXClient.uuid` would return now -/
-def mkServerCfg (T : Tables) (args : Chain) (mem lib : Ini) (disk : FileC) (uuid : Str) : PyM Ini := do
-  let cfg := reloadCfg mem disk uuid
+/-- the server nickname `mk_server_cfg` configures: `args.get("server")`, refused (`ValueError`) when empty or
+    equal to the URL -/
+def serverNick (args : Chain) : PyM Str := do
   let server := (args.get? "server".toList).getD .null
   let bad ← if !truthy server then pure true else do
       let url ← args.getItem "url".toList
@@ -430,11 +429,16 @@ def mkServerCfg (T : Tables) (args : Chain) (mem lib : Ini) (disk : FileC) (uuid
   if bad then .error .value
   else
     match server with
-    | .str server => do
-      let cfg := ensureSection cfg server
-      let libCfg ← readConfig T lib server
-      T.configurable.foldlM (writeOpt T args libCfg server) cfg
+    | .str server => pure server
     | _ => .error .key
+
+/-- `mk_server_cfg(args)`: `mem` is `USERCFG` as it stands, `lib` is `LIBCFG`, `disk` the user file
+    (`[]` when it does not exist), `uuid` what `OFXClient.uuid` would return now -/
+def mkServerCfg (T : Tables) (args : Chain) (mem lib : Ini) (disk : FileC) (uuid : Str) : PyM Ini := do
+  let server ← serverNick args
+  let cfg := ensureSection (reloadCfg mem disk uuid) server
+  let libCfg ← readConfig T lib server
+  T.configurable.foldlM (writeOpt T args libCfg server) cfg
 
 /-- `write_config(args)`: `none` = nothing written (dry run); `some cfg` = the file now holds `cfg` -/
 def writeConfig (T : Tables) (args : Chain) (mem lib : Ini) (disk : FileC) (uuid : Str) : PyM (Option Ini) := do
